@@ -11,13 +11,17 @@ mcvars == <<vars, hist>>
 SubObs(s) == [pc |-> pc[s], held |-> held[s], nret |-> Len(ret[s]),
               last |-> IF Len(ret[s]) = 0 THEN None ELSE ret[s][Len(ret[s])]]
 
+\* hp: a step that starts waiting for the result mutex can be forced on the real code only when
+\* the holder is parked at a schedule point (the reader at task.ready.holding_result)
+HolderParked(s) == rlock[held[s]] \in Sub /\ pc[rlock[held[s]]] = "t_locked"
 SubStep(s, name) ==
     hist' = Append(hist, [actor |-> s, act |-> name, pc |-> pc'[s], held |-> held'[s],
+                          hp |-> (name \in {"WaitResult", "WakeWait"}) => HolderParked(s),
                           nret |-> Len(ret'[s]),
                           last |-> IF Len(ret'[s]) = 0 THEN None ELSE ret'[s][Len(ret'[s])]])
 
 PipeStep(name) ==
-    hist' = Append(hist, [actor |-> "pipe", act |-> name, pc |-> ppc', held |-> ptask',
+    hist' = Append(hist, [actor |-> "pipe", act |-> name, pc |-> ppc', held |-> ptask', hp |-> TRUE,
                           nret |-> runs', last |-> None])
 
 MCInit == Init /\ hist = <<>>
@@ -26,22 +30,34 @@ MCInit == Init /\ hist = <<>>
 DoTrack(s) == Track(s) /\ SubStep(s, "Track")
 DoSend(s) == Send(s) /\ SubStep(s, "Send")
 DoCreateNotified(s) == CreateNotified(s) /\ SubStep(s, "CreateNotified")
-DoCheckSome(s) == CheckSome(s) /\ SubStep(s, "CheckSome")
-DoCheckNone(s) == CheckNone(s) /\ SubStep(s, "CheckNone")
-DoAwaitReturn(s) == AwaitReturn(s) /\ SubStep(s, "AwaitReturn")
+DoLockResult(s) == LockResult(s) /\ SubStep(s, "LockResult")
+DoWaitResult(s) == WaitResult(s) /\ SubStep(s, "WaitResult")
+DoGranted(s) == Granted(s) /\ SubStep(s, "Granted")
+DoReadSome(s) == ReadSome(s) /\ SubStep(s, "ReadSome")
+DoReadNone(s) == ReadNone(s) /\ SubStep(s, "ReadNone")
+DoUnlockReturn(s) == UnlockReturn(s) /\ SubStep(s, "UnlockReturn")
+DoUnlock(s) == Unlock(s) /\ SubStep(s, "Unlock")
+DoWakeLock(s) == WakeLock(s) /\ SubStep(s, "WakeLock")
+DoWakeWait(s) == WakeWait(s) /\ SubStep(s, "WakeWait")
+DoGrantedTail(s) == GrantedTail(s) /\ SubStep(s, "GrantedTail")
+DoReadReturn(s) == ReadReturn(s) /\ SubStep(s, "ReadReturn")
 DoCancel(s) == Cancel(s) /\ SubStep(s, "Cancel")
 DoPRecv == PRecv /\ PipeStep("PRecv")
 DoPRemove == PRemove /\ PipeStep("PRemove")
 DoPRemoveMissing == PRemoveMissing /\ PipeStep("PRemoveMissing")
-DoPSet == PSet /\ PipeStep("PSet")
+DoPLockResult == PLockResult /\ PipeStep("PLockResult")
+DoPWrite == PWrite /\ PipeStep("PWrite")
+DoPUnlockResult == PUnlockResult /\ PipeStep("PUnlockResult")
 DoPNotify == PNotify /\ PipeStep("PNotify")
 DoPUnlock == PUnlock /\ PipeStep("PUnlock")
 DoTerminated == Terminated /\ UNCHANGED hist
 
 MCNext ==
     \/ \E s \in Sub : \/ DoTrack(s) \/ DoSend(s) \/ DoCreateNotified(s)
-                       \/ DoCheckSome(s) \/ DoCheckNone(s) \/ DoAwaitReturn(s) \/ DoCancel(s)
-    \/ DoPRecv \/ DoPRemove \/ DoPRemoveMissing \/ DoPSet \/ DoPNotify \/ DoPUnlock
+                       \/ DoLockResult(s) \/ DoWaitResult(s) \/ DoGranted(s) \/ DoReadSome(s) \/ DoReadNone(s)
+                       \/ DoUnlockReturn(s) \/ DoUnlock(s) \/ DoWakeLock(s) \/ DoWakeWait(s)
+                       \/ DoGrantedTail(s) \/ DoReadReturn(s) \/ DoCancel(s)
+    \/ DoPRecv \/ DoPRemove \/ DoPRemoveMissing \/ DoPLockResult \/ DoPWrite \/ DoPUnlockResult \/ DoPNotify \/ DoPUnlock
     \/ DoTerminated
 
 MCFairness == (\A s \in Sub : WF_vars(SubNext(s))) /\ WF_vars(PipeNext)
